@@ -201,3 +201,33 @@ SPECS += [
         props=["C01", "C02", "C05", "C09", "C10", "C14"],
     ),
 ]
+
+AU, AD_, AO = "f'{N}.AROONU'", "f'{N}.AROOND'", "f'{N}.AROONOSC'"
+HP = lambda k: f"num(Rd(c, j - {k}, 'high'))"
+LP = lambda k: f"num(Rd(c, j - {k}, 'low'))"
+SPECS += [
+    IndSpec(
+        "hexital.indicators.aroon.AROON",
+        params=dict(RV, period=("int", None)),
+        lets=dict(LETS, w="period"),
+        extra_pre=dict(PRE_RV, **{"period>=2": "period >= 2"}),
+        inv={
+            "dict": (f"isdict({R('N')})", ["C06", "C09"]),
+            "presence": (f"iff({R(AU)} is not None, j >= w) and iff({R(AD_)} is not None, j >= w) and iff({R(AO)} is not None, j >= w)", ["C06", "C09"]),
+            "types": (f"implies(j >= w, isfloat({R(AU)}) and isfloat({R(AD_)}) and isfloat({R(AO)}))", ["C06", "C09"]),
+            # 100 * (period - bars since the most recent extreme) / period over period + 1 candles
+            "up-from-most-recent-high": (
+                f"implies(j >= w, exists(0, period + 1, lambda k: Abs({NUM(AU)} - (period - k) / period * 100) <= eps"
+                f" and forall(0, period + 1, lambda t: {HP('t')} <= {HP('k')})"
+                f" and forall(0, k, lambda t: {HP('t')} < {HP('k')})))", ["C06"], {"assume": False}),
+            "down-from-most-recent-low": (
+                f"implies(j >= w, exists(0, period + 1, lambda k: Abs({NUM(AD_)} - (period - k) / period * 100) <= eps"
+                f" and forall(0, period + 1, lambda t: {LP('t')} >= {LP('k')})"
+                f" and forall(0, k, lambda t: {LP('t')} > {LP('k')})))", ["C06"], {"assume": False}),
+            "oscillator-is-up-minus-down": (f"implies(j >= w, Abs({NUM(AO)} - ({NUM(AU)} - {NUM(AD_)})) <= 3 * eps)", ["C06", "C10"]),
+            "0<=aroon<=100": (f"implies(j >= w, 0 <= {NUM(AU)} and {NUM(AU)} <= 100 and 0 <= {NUM(AD_)} and {NUM(AD_)} <= 100)", ["C10"]),
+        },
+        window="period",
+        props=["C01", "C02", "C06", "C09", "C10", "C14"],
+    ),
+]
